@@ -130,6 +130,18 @@ CLAIMED = {
              'round trip of Last-Modified is Werkzeug\'s; native replay harness with fault injection at every call.',
         technique='contract-based deductive verification (pyvc + z3) with exhaustive fault-point paths',
         design_ref='DESIGN.md 7 C14'),
+    'C16': dict(
+        text='Deductive verification of JSONCookie.unserialize (postcondition from the statement: for every cookie '
+             'string, never an exception, and an empty cookie unless the signature is valid), quote/unquote (round trip '
+             'over the json/base64 axioms; malformed payloads raise UnquoteError only) and '
+             'SignedCookieMiddleware.request (the provided object is the loaded cookie, it is saved exactly once on the '
+             'returned response, the response is otherwise untouched, for all three expiry settings).',
+        note='unforgeability (A-mac) is a cryptographic assumption; the dependency SecureCookie.unserialize is an '
+             'assumed contract (A-sc) whose existential facts (it raises on malformed input) are executed natively as '
+             'witnesses on every run; the multi-request history clause is argued by induction over the round trip, '
+             'stated not mechanised.',
+        technique='contract-based deductive verification (pyvc + z3); assumed dependency contract with executed witnesses',
+        design_ref='DESIGN.md 7 C16'),
 }
 
 REASONS = {}
